@@ -318,7 +318,7 @@ def t_in_nested(t, depth_of):
     return t in depth_of
 
 
-def threaded_serving_run(ctx, seed, policy, nthreads, nreq, p_switch, client_bg=False):
+def threaded_serving_run(ctx, seed, policy, nthreads, nreq, p_switch, client_bg=False, unenc=None):
     """the serving side answers from several threads at once (what serve_threaded does): under the controlled scheduler, with
     pre-emption inside _send and _dispatch_request, every request must still get exactly one response.
     client_bg: a second thread serves the REQUESTER's connection as well (what BgServingThread does), with pre-emption inside
@@ -364,7 +364,9 @@ def threaded_serving_run(ctx, seed, policy, nthreads, nreq, p_switch, client_bg=
             root = a.root
             work = rpyc.async_(root.work)
             state["setup"] = True          # from here on only asynchronous requests with plain results are in flight
-            ars = [(i, work("m%d" % i, "value")) for i in range(nreq)]
+            # unenc: the result of that one request cannot be encoded (an integer beyond the interpreter's text limit): its requester
+            # gets an exception response, and every other request - answered by other threads meanwhile - its own value
+            ars = [(i, work("m%d" % i, "unenc_bigint" if i == unenc else "value")) for i in range(nreq)]
             arbox.extend(ars)
             for i, ar in ars:
                 if client_bg:
@@ -374,6 +376,8 @@ def threaded_serving_run(ctx, seed, policy, nthreads, nreq, p_switch, client_bg=
                     results[i] = ar.value
                 except rpyc.AsyncResultTimeout:
                     results[i] = ("expired although ready" if ar._is_ready else "expired: no response was delivered to this request",)
+                except Exception as e:
+                    results[i] = ("raised", type(e).__name__)
             del ars, work, root
         finally:
             state["done"] = True
@@ -409,7 +413,7 @@ def threaded_serving_run(ctx, seed, policy, nthreads, nreq, p_switch, client_bg=
     ctx.count("threaded_serving_runs")
     ctx.count("threaded_serving_teardown_exceptions", len(teardown_exc))
     ctx.count("threaded_serving_preemptions", sched.preemptions)
-    wit = dict(mode="threaded-serving", seed=list(seed) if isinstance(seed, tuple) else seed, policy=policy, nthreads=nthreads, nreq=nreq, client_bg=client_bg)
+    wit = dict(mode="threaded-serving", seed=list(seed) if isinstance(seed, tuple) else seed, policy=policy, nthreads=nthreads, nreq=nreq, client_bg=client_bg, unenc=unenc)
     if not ok:
         ctx.inconclusive("wall-clock watchdog in threaded-serving run")
         return
@@ -453,7 +457,14 @@ def threaded_serving_run(ctx, seed, policy, nthreads, nreq, p_switch, client_bg=
             if n != 1:
                 ctx.violation("C08/threaded-serving/%s" % ("no-response" if n == 0 else "duplicate-response"),
                               "request seq %r got %d responses" % (m["seq"], n), wit)
+    if unenc is not None:
+        ctx.count("threaded_serving_runs_with_an_unencodable_result")
     for i in range(nreq):
+        if i == unenc:
+            if not (isinstance(results.get(i), tuple) and results[i][0] == "raised"):
+                ctx.violation("C08/threaded-serving/unencodable-result-not-answered-with-an-exception", "request m%d, whose result cannot be encoded, "
+                              "completed with %r" % (i, results.get(i)), wit)
+            continue
         if results.get(i) != ("v", "m%d" % i):
             ctx.violation("C08/threaded-serving/wrong-result", "request m%d completed with %r" % (i, results.get(i)), wit)
     if len(set(log)) != len(log):
@@ -466,7 +477,7 @@ def run(ctx):
     rng = ctx.rng
     for i in range(ctx.budget(400, 60000)):
         threaded_serving_run(ctx, (ctx.seed, ctx.shard[0], i), "random" if i % 3 else "pct", rng.choice([2, 3]) if i % 4 else 1, rng.choice([2, 3, 5]),
-                             rng.choice([0.1, 0.3, 0.6]), client_bg=(i % 4 == 0 or i % 7 == 0))
+                             rng.choice([0.1, 0.3, 0.6]), client_bg=(i % 4 == 0 or i % 7 == 0), unenc=(rng.randrange(2) if i % 3 == 1 else None))
         if ctx.enough():
             return
     for i in range(ctx.budget(250, 30000)):
